@@ -200,6 +200,199 @@ def history(a, b, c):
             and H_PLAIN2(src) == DSame(a, b, c) and H_REFUSED_BEFORE and H_OK3(src) == DCo(("x", a), b, c) and H_REFUSED_AFTER)
 '''
 
+FAMILY = '''
+import dataclasses, itertools
+from typing import Optional, List, Dict
+from adaptix import P, ProviderNotFoundError
+from adaptix.conversion import ConversionRetort, impl_converter, link, link_constant, link_function, from_param
+
+@dataclasses.dataclass
+class FS:
+    a: int
+    b: int
+    c: int
+    extra: int = 0
+@dataclasses.dataclass
+class FD:
+    a: int
+    b: int
+    z: int
+@dataclasses.dataclass
+class FOther:
+    z: int
+@dataclasses.dataclass
+class FSN:
+    inner: FS
+    lst: List[FS]
+    opt: Optional[FS]
+    d: Dict[str, FS]
+    a: int
+@dataclasses.dataclass
+class FDN:
+    inner: FD
+    lst: List[FD]
+    opt: Optional[FD]
+    d: Dict[str, FD]
+    a: int
+def f_sum(src): return src.a + src.c + 1
+def co2(v): return v * 2 + 1
+# token -> (target dst field, provider factory, reference value function(src, params))
+TOK = {
+    "La_z": ("z", lambda S=FS, D=FD: link(P[S].a, P[D].z), lambda s, ps: s.a),
+    "Lb_z": ("z", lambda S=FS, D=FD: link(P[S].b, P[D].z), lambda s, ps: s.b),
+    "K_z": ("z", lambda S=FS, D=FD: link_constant(P[D].z, value=7), lambda s, ps: 7),
+    "F_z": ("z", lambda S=FS, D=FD: link_function(f_sum, P[D].z), lambda s, ps: s.a + s.c + 1),
+    "Co_z": ("z", lambda S=FS, D=FD: link(P[S].b, P[D].z, coercer=co2), lambda s, ps: s.b * 2 + 1),
+    "Q_z": ("z", lambda S=FS, D=FD: link(from_param("q"), P[D].z), lambda s, ps: ps["q"]),
+    "Lc_a": ("a", lambda S=FS, D=FD: link(P[S].c, P[D].a), lambda s, ps: s.c),
+    "K_b": ("b", lambda S=FS, D=FD: link_constant(P[D].b, value=9), lambda s, ps: 9),
+    "decoy": (None, lambda S=FS, D=FD: link(P[S].a, P[FOther].z), None),
+    "decoy2": (None, lambda S=FS, D=FD: link_constant(P[FOther].z, value=1), None),
+}
+def ref_fd(tokens, s, ps, top, mk=None):
+    out = {}
+    for f in ("a", "b", "z"):
+        for t in tokens:
+            if TOK[t][0] == f:
+                out[f] = TOK[t][2](s, ps); break
+        else:
+            if top and f in ps: out[f] = ps[f]              # a same-named extra parameter wins over the source field (top level only)
+            elif f != "z": out[f] = getattr(s, f)
+            else: return None                                # nothing provides z: creation must be refused
+    return (mk or FD)(**out)
+
+def mk_conv(tokens, params, src_t, dst_t, tok_s=None, tok_d=None):
+    ns = {}
+    sig = ", ".join(["src: S"] + [p + ": int" for p in params])
+    exec("def stub(" + sig + ") -> D: ...", {"S": src_t, "D": dst_t}, ns)
+    return impl_converter(recipe=[TOK[t][1](tok_s or FS, tok_d or FD) for t in tokens])(ns["stub"])
+
+ZT = ("La_z", "Lb_z", "K_z", "F_z", "Co_z")
+PROGS = []          # (tokens, params)
+for zs in [(z,) for z in ZT] + list(itertools.permutations(ZT, 2)):
+    for la in (0, 1, 2):
+        toks = (("Lc_a",) if la == 1 else ()) + zs[:1] + ("decoy",) + zs[1:] + (("Lc_a",) if la == 2 else ())
+        for params in ((), ("z",), ("a", "b"), ("b", "z", "a")):
+            PROGS.append((toks, params))
+for params in (("q",), ("z", "q"), ("q", "a")):
+    PROGS += [(("Q_z",), params), (("decoy2", "Q_z", "K_z"), params), (("K_z", "Q_z", "K_b"), params), (("Lc_a", "K_b", "Q_z"), params)]
+# nothing provides z: refused unless a parameter named z exists
+PROGS += [((), ()), (("decoy",), ("a",)), (("Lc_a", "K_b"), ("b",)), ((), ("z",)), (("K_b", "decoy2"), ("a", "z"))]
+CONV, CERR = [], []
+for _toks, _params in PROGS:
+    try: CONV.append(("ok", mk_conv(_toks, _params, FS, FD)))
+    except ProviderNotFoundError: CONV.append(("refused", None))
+    except Exception as _e: CONV.append(("error", repr(_e)[:200])); CERR.append((_toks, _params, repr(_e)[:200]))
+NP = len(PROGS)
+
+def fam_flat(pi, a, b, c, e, p0, p1, p2):
+    toks, params = PROGS[pi]
+    st, conv = CONV[pi]
+    s = FS(a, b, c, e); snap = FS(a, b, c, e)
+    pv = [p0, p1, p2][:len(params)]
+    ps = dict(zip(params, pv))
+    exp = ref_fd(toks, s, ps, True)
+    if exp is None: return st == "refused"
+    if st != "ok": return False
+    out = conv(s, *pv)
+    return type(out) is FD and out == exp and s == snap
+
+NTOKS = [("La_z",), ("K_z",), ("F_z", "La_z"), ("Co_z", "Lc_a"), ("Lc_a", "decoy", "Lb_z", "K_b"), ("Q_z",), ("K_b", "Q_z", "La_z"), ("La_z", "Q_z")]
+NPARAMS = [(), ("a",), ("q",), ("q", "a"), ("z", "b")]
+NPROGS = [(t, ps) for t in NTOKS for ps in NPARAMS if ("Q_z" not in t or "q" in ps)]
+NCONV = []
+for _toks, _params in NPROGS:
+    try: NCONV.append(("ok", mk_conv(_toks, _params, FSN, FDN)))
+    except ProviderNotFoundError: NCONV.append(("refused", None))
+    except Exception as _e: NCONV.append(("error", repr(_e)[:200])); CERR.append((_toks, _params, repr(_e)[:200]))
+NNP = len(NPROGS)
+
+def fam_nested(pi, n, isnone, a, b, c, p0, p1):
+    toks, params = NPROGS[pi]
+    st, conv = NCONV[pi]
+    n = pick(n, 3)
+    def mk():
+        return FSN(inner=FS(a, b, c, 1), lst=[FS(a + i, b, c - i) for i in range(n)], opt=None if isnone else FS(c, a, b),
+                   d={"k%d" % i: FS(b, c + i, a) for i in range(n)}, a=a + 7)
+    s, snap = mk(), mk()
+    pv = [p0, p1][:len(params)]
+    ps = dict(zip(params, pv))
+    def sub(x): return ref_fd(toks, x, ps, False)            # nested level: links and from_param apply, same-named parameters do not
+    if sub(s.inner) is None: return st == "refused"
+    if st != "ok": return False
+    exp = FDN(inner=sub(s.inner), lst=[sub(x) for x in s.lst], opt=None if s.opt is None else sub(s.opt), d={k: sub(v) for k, v in s.d.items()},
+              a=ps["a"] if "a" in ps else s.a)
+    out = conv(s, *pv)
+    return type(out) is FDN and out == exp and s == snap and out.lst is not s.lst and out.d is not s.d
+
+# ---- the same rules across model kinds of source and destination
+import attr
+from typing import NamedTuple, TypedDict
+class FS_NT(NamedTuple):
+    a: int
+    b: int
+    c: int
+    extra: int = 0
+@attr.s(auto_attribs=True)
+class FS_AT:
+    a: int
+    b: int
+    c: int
+    extra: int = 0
+class FD_NT(NamedTuple):
+    a: int
+    b: int
+    z: int
+@attr.s(auto_attribs=True)
+class FD_AT:
+    a: int
+    b: int
+    z: int
+class FD_TD(TypedDict):
+    a: int
+    b: int
+    z: int
+class FD_PK:
+    def __init__(self, a: int, /, b: int, *, z: int): self.a, self.b, self.z = a, b, z
+    def __eq__(self, o): return type(o) is FD_PK and (o.a, o.b, o.z) == (self.a, self.b, self.z)
+@dataclasses.dataclass(frozen=True)
+class FD_FZ:
+    z: int              # declaration order differs from the source
+    b: int
+    a: int
+SKINDS = (FS, FS_NT, FS_AT)
+DKINDS = (FD, FD_NT, FD_AT, FD_TD, FD_PK, FD_FZ)
+def mk_dst(D):
+    if D is FD_TD: return lambda **kw: dict(kw)
+    if D is FD_PK: return lambda a, b, z: FD_PK(a, b, z=z)
+    return lambda **kw: D(**kw)
+KTOKS = [("La_z",), ("K_z",), ("F_z",), ("Co_z",), ("Lb_z", "La_z"), ("K_z", "F_z"), ("Lc_a", "decoy", "Co_z"), ("La_z", "K_b", "Lc_a"), ()]
+KPARAMS = [(), ("z", "a")]
+KPROGS = [(si, di, t, ps) for si in range(len(SKINDS)) for di in range(len(DKINDS)) for t in KTOKS for ps in KPARAMS]
+KCONV = []
+for _si, _di, _toks, _params in KPROGS:
+    try: KCONV.append(("ok", mk_conv(_toks, _params, SKINDS[_si], DKINDS[_di], SKINDS[_si], DKINDS[_di])))
+    except ProviderNotFoundError: KCONV.append(("refused", None))
+    except Exception as _e: KCONV.append(("error", repr(_e)[:200])); CERR.append((_si, _di, _toks, _params, repr(_e)[:200]))
+NKP = len(KPROGS)
+
+def fam_kinds(pi, a, b, c, e, p0, p1):
+    si, di, toks, params = KPROGS[pi]
+    st, conv = KCONV[pi]
+    S, D = SKINDS[si], DKINDS[di]
+    s = S(a, b, c, e); snap = S(a, b, c, e)
+    pv = [p0, p1][:len(params)]
+    ps = dict(zip(params, pv))
+    exp = ref_fd(toks, s, ps, True, mk_dst(D))
+    if exp is None: return st == "refused"
+    if st != "ok": return False
+    out = conv(s, *pv)
+    if D is FD_TD:
+        if not isinstance(out, dict): return False            # (under the engine type() of a TypedDict call result is the TypedDict class)
+    elif type(out) is not D: return False
+    return out == exp and s == snap
+'''
+
 
 def build(tier, seed):
     quick = tier == "quick"
@@ -216,7 +409,31 @@ def build(tier, seed):
     m.ob("containers_fresh", "n: int, x: int, b: bool", "return containers(n, x, b)", pre=["0 <= n <= 2"], timeout=tmo, family=fam,
          bounds="List[int]->List[Optional[int]], Set[bool]->Set[int], List[List[int]]->List[List[Any]], Dict[str,int]->Dict[str,Optional[int]]; results share no container with the source")
     m.ob("signature", "x: int", "return SIG_OK", timeout=30, family=fam, bounds="impl_converter preserves the stub's signature")
+    mf = Module("c13_family").pre(FAMILY)
+    mf.ob("family_creation", "x: int", "return not CERR", timeout=30, family="converter program family", bounds="creation of every program either succeeds or is refused with ProviderNotFoundError")
+    import itertools as _it
+    n_flat = (5 + 20) * 3 * 4 + 12 + 5
+    chunk = 40
+    for lo in range(0, n_flat, chunk):
+        hi = min(n_flat, lo + chunk)
+        mf.ob(f"family_flat_{lo:03d}", "pi: int, a: int, b: int, c: int, e: int, p0: int, p1: int, p2: int", "return fam_flat(pick(pi - %d, %d) + %d, a, b, c, e, p0, p1, p2)" % (lo, hi - lo, lo),
+              pre=[f"{lo} <= pi < {hi}"], timeout=tmo, family="converter program family: first matching link / constant / function / from_param in recipe order, then parameter, then same-named field",
+              bounds=f"programs {lo}..{hi - 1} of {n_flat}: every single and ordered pair of 5 providers for one destination field (link, link with coercer, link_constant, link_function), "
+                     "a link overriding a same-named field before / after them, a non-matching decoy between them, 4 extra-parameter lists, from_param programs, refused programs; all values symbolic ints")
+    n_nest = 5 * 5 + 3 * 2
+    for lo in range(0, n_nest, 16):
+        hi = min(n_nest, lo + 16)
+        mf.ob(f"family_nested_{lo:02d}", "pi: int, n: int, isnone: bool, a: int, b: int, c: int, p0: int, p1: int", "return fam_nested(pick(pi - %d, %d) + %d, n, isnone, a, b, c, p0, p1)" % (lo, hi - lo, lo),
+              pre=[f"{lo} <= pi < {hi}", "0 <= n <= 2"], timeout=tmo, family="converter program family, nested: links and from_param reach nested models inside Optional / List / Dict; same-named parameters only the top level",
+              bounds=f"programs {lo}..{hi - 1} of {n_nest}: 8 recipes x 5 parameter lists on a model nesting the flat pair directly, in a list (len<=2), a dict and an Optional; symbolic ints")
+    n_kinds = 3 * 6 * 9 * 2
+    for lo in range(0, n_kinds, 54):
+        hi = min(n_kinds, lo + 54)
+        mf.ob(f"family_kinds_{lo:03d}", "pi: int, a: int, b: int, c: int, e: int, p0: int, p1: int", "return fam_kinds(pick(pi - %d, %d) + %d, a, b, c, e, p0, p1)" % (lo, hi - lo, lo),
+              pre=[f"{lo} <= pi < {hi}"], timeout=tmo, family="converter program family across model kinds of source and destination",
+              bounds=f"programs {lo}..{hi - 1} of {n_kinds}: source dataclass / NamedTuple / attrs x destination dataclass / NamedTuple / attrs / TypedDict / "
+                     "class with positional-only and keyword-only parameters / frozen dataclass with another field order x 9 recipes x 2 parameter lists; symbolic ints")
     m.ob("history", "a: int, b: str, c: int", "return history(a, b, c)", pre=["len(b) <= 1"], timeout=tmo * 2, family="converter cache vs per-call recipe",
          bounds="plain-then-recipe and recipe-then-plain on one retort; refused pair stays refused after a call with a coercer")
-    return Plan("C13", [m], assumptions=["expected results are written by construction from the documented linking rules"],
+    return Plan("C13", [m, mf], assumptions=["expected results are written by construction from the documented linking rules"],
                 bounds={}, outside=["pydantic / sqlalchemy endpoints", "link predicates matching both a parameter and a field"])
